@@ -67,6 +67,9 @@ func calleeLabel(c *ssa.CallCommon) string {
 	if c.IsInvoke() {
 		return c.Method.Name()
 	}
+	if b, ok := c.Value.(*ssa.Builtin); ok {
+		return b.Name()
+	}
 	if f := c.StaticCallee(); f != nil {
 		s := fnShort(f)
 		if i := strings.Index(s, "["); i >= 0 {
@@ -149,6 +152,14 @@ func (x *Exec) hintsAt(st *State, site ssa.Instruction, after bool) {
 			continue
 		}
 		env := x.frameEnv(st)
+		if after {
+			// the value the call returned is `result` (the variable it is assigned to is bound only afterwards)
+			if v, ok := site.(ssa.Value); ok {
+				if rv, ok := st.fr.vals[v]; ok {
+					env.names = map[string]Val{"result": rv}
+				}
+			}
+		}
 		g := x.evalBool(env, h.C.E)
 		when := "before"
 		if after {
@@ -830,6 +841,9 @@ func (x *Exec) builtinAppend(st *State, site ssa.Instruction, c *ssa.CallCommon,
 		after := x.hget(st.H, x.memKey(elem))
 		st.assume(fmt.Sprintf("(forall ((k!a Int)) (! (=> (and (<= %s k!a) (< k!a (+ %s %s))) (= (select (select %s %s) (+ %s (- k!a %s))) (select (select %s %s) k!a))) :pattern ((select (select %s %s) k!a))))",
 			s.O, s.O, s.L, after, rb, ro, s.O, memBefore, s.B, memBefore, s.B))
+		// and with backward pattern: an element of the result below the old length is an old element
+		st.assume(fmt.Sprintf("(forall ((k!b Int)) (! (=> (and (<= %s k!b) (< k!b (+ %s %s))) (= (select (select %s %s) k!b) (select (select %s %s) (+ %s (- k!b %s))))) :pattern ((select (select %s %s) k!b))))",
+			ro, ro, s.L, after, rb, memBefore, s.B, s.O, ro, after, rb))
 	}
 	return SL{rb, ro, newLen, rc, st0}
 }
